@@ -480,6 +480,10 @@ class TagsStream(runner.Stream):
     def failures(self, req, ans):
         """[(finding class or None, text)] — every way the answer falls short of the property"""
         t = req.split(" ")
+        if ans.startswith("imported-differs"):
+            # harness/src/tags.rs: the same definitions imported from a sibling module (with a decoy module
+            # of the same names loaded as well) must give the answer of the single module
+            return [(None, "order / TAG constants depend on whether the referenced types are defined in the module or imported: " + ans[:300])]
         try:
             a = analyse(req)
         except Illegal:
@@ -650,7 +654,7 @@ class Spec(runner.Spec):
         "extension additions of a SET follow the root components in the order of their definition (X.691 21.1: only the RootComponentTypeList is sorted into the canonical order; the property's 'root components before extension additions' is read that way since the repair of sort_fields_canonically — sorting the additions among themselves breaks C05)",
         "a second root component list after the extension additions (`a, ..., b, ..., c`) is outside the domain (the crate's grammar has one `extension_after` index)",
         "duplicate tags within one SET, undefined references and modules in which a tag depends on itself (`A ::= B`, `B ::= A`; X.680 gives such a type no tag, it is not legal ASN.1) are outside the oracle's domain; they stay in the correspondence stream (stability of the sort, compile error, 'no tag' for a reference cycle)",
-        "imports / multi-module scopes are not modelled (one module per request)",
+        "imports / multi-module scopes are not modelled in Lean (one module per request); the harness answers every request with definitions a second time with the definitions imported from a sibling module while a third loaded module defines types of the same names with other tags, in three load orders: `imported-differs` when the answer is not the one of the single module",
         "wire order for values is covered by the uper stream; here the order of the read_value/write_value calls in the generated read_seq/write_seq is taken as the wire and presence-bit order",
         "Rust semantics of the mirrored functions is tied to the Lean mirror only by differential execution (stream `tags`)",
     ]
